@@ -31,6 +31,7 @@ def run(tier):
         r = tlc.run("Concurrent.tla", "Concurrent.cfg", workers=8, timeout=900)
         c.add_tlc(r, "concurrent readers: no shared write, single-thread answers under all interleavings")
         jobs = r.records.get("J", [])
+        if not jobs: raise tlc.SetupError("Concurrent.tla emitted no job lists")
         # 2. trace validation of the real ThreadPool
         ns = list(range(0, 41)) + [63, 64, 65, 100, 127, 255, 256]
         ts = list(range(1, 13)) + [16, 31, 32, 40]
